@@ -28,6 +28,7 @@ package main
 // arrays of 262144..2.7M cells), which no ticker-driven run can afford.
 
 import (
+	"bytes"
 	"context"
 	"errors"
 	"fmt"
@@ -641,7 +642,23 @@ func c16Serial(o *out, inner string, G int) bool {
 		if ov < 0 {
 			ov = 0
 		}
-		o.printf("SER %s %d :: blocked=%d overlap=%d adds=%d\n", inner, G, b2i(!ok), ov, atomic.LoadInt32(&coll.adds))
+		// every method of the wrapper reaches the collector behind it: metadata set through it is in what it resolves
+		meta := 0
+		real := events.NewSynchronizedCollector(events.NewPassthroughCollector(ftdc.NewBaseCollector(10)))
+		_ = real.SetMetadata(encDoc([]elem{{"host", &val{T: 0x02, B: []byte("h")}}}))
+		_ = real.AddEvent(&events.Performance{ID: 1})
+		if p, err := real.Resolve(); err == nil {
+			ctx, cancel := context.WithTimeout(context.Background(), 10*time.Second)
+			it := ftdc.ReadChunks(ctx, bytes.NewReader(p))
+			for it.Next() {
+				if it.Chunk().GetMetadata() != nil {
+					meta = 1
+				}
+			}
+			it.Close()
+			cancel()
+		}
+		o.printf("SER %s %d :: blocked=%d overlap=%d adds=%d meta=%d\n", inner, G, b2i(!ok), ov, atomic.LoadInt32(&coll.adds), meta)
 		return !ok
 	}
 	rec := events.NewSynchronizedRecorder(c16InnerRecorder(inner, coll))
@@ -654,7 +671,11 @@ func c16Serial(o *out, inner string, G int) bool {
 				for j := 0; j < 6; j++ {
 					rec.BeginIteration()
 					rec.IncOperations(1)
+					rec.SetTime(time.Now())
+					rec.SetID(int64(j))
+					rec.IncSize(2)
 					rec.EndIteration(time.Microsecond)
+					rec.SetTotalDuration(time.Millisecond)
 				}
 			}()
 		}
